@@ -145,14 +145,17 @@ let h_rd = function
         | _ -> r := Propfail ("codec.stream.misaligned", Printf.sprintf "bundle %d of the stream is rejected" i) :: !r)
       (List.combine want (lst plain));
     (* the model on the same bytes *)
-    (match dec_bundle (s_n now) (s_bytes stream) with
-     | Some (b1, rest) ->
-       if D_bundle.dump_bundle b1 <> Sexp.to_string (fst (List.nth want 0)) || total - List.length rest <> snd (List.nth want 0) then
+    (* Model/BundleStream.v dec_bundles (theorem C01_stream): two reads from one stream; the first bundle's end
+       offset is re-derived from a one-bundle read of the same model function *)
+    (match dec_bundles (s_n now) (S (S O)) (s_bytes stream) with
+     | Some ([b1; b2], rest) ->
+       let end1 = (match dec_bundles (s_n now) (S O) (s_bytes stream) with Some ([_], r1) -> total - List.length r1 | _ -> -1) in
+       if D_bundle.dump_bundle b1 <> Sexp.to_string (fst (List.nth want 0)) || end1 <> snd (List.nth want 0) then
          r := Mismatch "model reads the first bundle of the stream differently" :: !r
-       else (match dec_bundle (s_n now) rest with
-           | Some (b2, []) -> if D_bundle.dump_bundle b2 <> Sexp.to_string (fst (List.nth want 1)) then r := Mismatch "model reads the second bundle of the stream differently" :: !r
-           | _ -> r := Mismatch "model does not read the second bundle of the stream" :: !r)
-     | None -> r := Mismatch "model rejects the stream" :: !r);
+       else if rest <> [] then r := Mismatch "model does not consume the stream with the second bundle" :: !r
+       else if D_bundle.dump_bundle b2 <> Sexp.to_string (fst (List.nth want 1)) then
+         r := Mismatch "model reads the second bundle of the stream differently" :: !r
+     | _ -> r := Mismatch "model rejects the stream" :: !r);
     List.iter (fun d -> match lst d with
         | [mode; res] ->
           let name = (match lst mode with Atom n :: _ -> n | _ -> "?") in
